@@ -2,7 +2,7 @@
    Everything here is executable Gallina; no proofs. *)
 From Coq Require Import List NArith ZArith String Bool.
 Import ListNotations.
-From UV Require Import Py.Val Py.Str Py.Utf8 Py.Regex Py.UrlLib Gen.Patterns Ural.TrieDict Ural.Utils Ural.HostnameTrieSet Ural.SuffixTrie Ural.Tld Proofs.SuffixTrieFacts Py.Pct Ural.Quote Spec.C14 Gen.Tables Ural.FormatUrl Ural.InferRedirection.
+From UV Require Import Py.Val Py.Str Py.Utf8 Py.Regex Py.UrlLib Gen.Patterns Ural.TrieDict Ural.Utils Ural.HostnameTrieSet Ural.SuffixTrie Ural.Tld Proofs.SuffixTrieFacts Py.Pct Ural.Quote Spec.C14 Gen.Tables Ural.FormatUrl Ural.InferRedirection Ural.Lru.
 Open Scope string_scope.
 
 Definition opt_wrap (o : option val) : val :=
@@ -317,6 +317,86 @@ Definition do_infer (arg : val) : val :=
   | _ => vbad
   end.
 
+(* ---------------- LRU (C11-C13) ---------------- *)
+(* arg: env suffix_aware (url ...) -> per url: stems, serialized lru, lru_to_url(lru), lru_to_url(stems),
+   unserialize(lru), url_to_lru(lru_to_url(lru)) *)
+Definition do_lru (arg : val) : val :=
+  match arg with
+  | VL [ev; VB sa; VL urls] =>
+      let e := env_of ev in
+      let t := if sa then suffix_trie tt else sempty in
+      VL (map (fun u =>
+                 match lru_stems e t u sa with
+                 | Exc x => VErr (exn_name x)
+                 | Ok st =>
+                     let l := serialize_lru st in
+                     let back := lru_to_url l in
+                     VL [vstrs st; VS l; vres VS back; vres VS (lru_to_url_stems st); vstrs (unserialize_lru l);
+                         match back with Ok b => vres VS (url_to_lru e t b sa) | Exc x => VErr (exn_name x) end]
+                 end) (strs_of urls))
+  | _ => vbad
+  end.
+
+Definition do_lru_misc (arg : val) : val :=
+  match arg with
+  | VL [VS op; VS a] =>
+      if str_eqb op (lit "unserialize") then vstrs (unserialize_lru a)
+      else if str_eqb op (lit "lru_to_url") then vres VS (lru_to_url a)
+      else vbad
+  | VL [VS op; VL l] =>
+      if str_eqb op (lit "serialize") then VS (serialize_lru (strs_of l))
+      else if str_eqb op (lit "lru_to_url_stems") then vres VS (lru_to_url_stems (strs_of l))
+      else vbad
+  | _ => vbad
+  end.
+
+(* LRUTrie: arg: env suffix_aware ops queries ; op = ("set" url value) | ("set_lru" lru-or-stems value);
+   query = ("match" url) | ("match_lru" lru-or-stems) *)
+Definition stems_of_val (v : val) : list str :=
+  match v with VS s => unserialize_lru s | VL l => strs_of l | _ => [] end.
+
+Fixpoint lt_apply (e : env) (t : snode) (sa : bool) (ops : list val) (tr : lrutrie) : res lrutrie :=
+  match ops with
+  | [] => Ok tr
+  | VL [VS op; x; v] :: r =>
+      if str_eqb op (lit "set") then
+        match x with
+        | VS u => match lru_stems e t u sa with
+                  | Ok st => lt_apply e t sa r (set str_eqb (clean_trailing_path st) v tr)
+                  | Exc y => Exc y
+                  end
+        | _ => Exc TypeError
+        end
+      else lt_apply e t sa r (set str_eqb (clean_trailing_path (stems_of_val x)) v tr)
+  | _ => Exc TypeError
+  end.
+
+Definition do_lrutrie (arg : val) : val :=
+  match arg with
+  | VL [ev; VB sa; VL ops; VL queries] =>
+      let e := env_of ev in
+      let t := if sa then suffix_trie tt else sempty in
+      match lt_apply e t sa ops empty with
+      | Exc x => VErr (exn_name x)
+      | Ok tr =>
+          VL [VZ (len tr); VL (values tr);
+              VL (map (fun q => match q with
+                                | VL [VS op; x] =>
+                                    if str_eqb op (lit "match") then
+                                      match x with
+                                      | VS u => match lru_stems e t u sa with
+                                                | Ok st => opt_wrap (lmpv str_eqb (clean_trailing_path st) tr)
+                                                | Exc y => VErr (exn_name y)
+                                                end
+                                      | _ => vbad
+                                      end
+                                    else opt_wrap (lmpv str_eqb (clean_trailing_path (stems_of_val x)) tr)
+                                | _ => vbad
+                                end) queries)]
+      end
+  | _ => vbad
+  end.
+
 (* ---------------- dispatch ---------------- *)
 Definition table : list (str * (val -> val)) :=
   [ (lit "triedict", do_triedict);
@@ -332,7 +412,10 @@ Definition table : list (str * (val -> val)) :=
     (lit "c14spec", do_c14spec);
     (lit "format_url", do_format_url);
     (lit "queryarg", do_queryarg);
-    (lit "infer", do_infer) ].
+    (lit "infer", do_infer);
+    (lit "lru", do_lru);
+    (lit "lru_misc", do_lru_misc);
+    (lit "lrutrie", do_lrutrie) ].
 
 Fixpoint find_fn (name : str) (l : list (str * (val -> val))) : option (val -> val) :=
   match l with
